@@ -103,7 +103,12 @@ def case(spec):
     coin = spec["coin"]
     _COIN["coin"] = coin
     crng = random.Random("C17chain|%s|%s" % (spec["chain_seed"], coin))
-    chain = gen.simple_chain(crng, coin, spec["blocks"], max_tx=1)
+    if spec["n"] % 3 == 0 and spec["blocks"] <= 400:
+        # blocks of every size class: smaller than, about and beyond the 32 KiB read buffer (how a block is fetched must not matter
+        # for when its file is closed)
+        chain = layouts.layout_chain(crng, coin, nblocks=spec["blocks"], big_every=crng.choice([2, 3, 5]))
+    else:
+        chain = gen.simple_chain(crng, coin, spec["blocks"], max_tx=1)
     lrng = random.Random("C17layout|%s|%s" % (spec["chain_seed"], spec["n"]))
     kind = spec["kind"]
     if kind == "revisit":
